@@ -404,9 +404,9 @@ def _model_or_structural(ctx, rid, structural, key, text_ok):
     und = [o for o in sub.obligations if o.status == UNDECIDED]
     for k_, v_ in sub.counters.items():
         if isinstance(v_, set):
-            ctx.counters[k_] |= v_
+            ctx.counters[k_] = ctx.counters.get(k_, set()) | v_
         else:
-            ctx.counters[k_] += v_
+            ctx.counters[k_] = ctx.counters.get(k_, 0) + v_
     for k_, v_ in getattr(sub, 'exhaustive', {}).items():
         ctx.exhaustive[k_] = v_
     if err is None and not und:
